@@ -1,4 +1,4 @@
-(* C11 - table facts about the regenerated lists, and the witnesses of the laws the pinned code does
+(* C11 - table facts about the regenerated lists, and the witnesses of the laws the code does
    not satisfy.  Every witness is the AST the repository's own parser builds for the Cb text quoted
    next to it (as dumped by harness/cpp/c11_driver.cpp); the harness replays the same text on the
    real binary (known_findings/C11.json). *)
@@ -28,42 +28,50 @@ Definition missing (all copied : list string) : list string :=
   filter (fun f => negb (in_list f copied)) all.
 
 (* ------------------------------------------------------------------ the tables *)
-Lemma clone_complete_refuted_l : ~ incl ast_child_fields cloned_child_fields.
-Proof. intros H. apply incl_b_incl in H. vm_compute in H. discriminate. Qed.
-
-Lemma clone_scalars_complete_refuted_l : ~ incl ast_scalar_fields cloned_scalar_fields.
-Proof. intros H. apply incl_b_incl in H. vm_compute in H. discriminate. Qed.
-
-Lemma clone_missing_children_recorded_l :
-  incl (missing ast_child_fields cloned_child_fields) recorded_missing_children.
+Lemma clone_complete_l : incl ast_child_fields cloned_child_fields.
 Proof. apply incl_b_incl. vm_compute. reflexivity. Qed.
 
-Lemma clone_missing_scalars_recorded_l :
-  incl (missing ast_scalar_fields cloned_scalar_fields) recorded_missing_scalar.
+Lemma clone_scalars_complete_l : incl ast_scalar_fields cloned_scalar_fields.
+Proof. apply incl_b_incl. vm_compute. reflexivity. Qed.
+
+Lemma node_scalars_copied_l : incl node_scalar_fields copied_scalar_fields.
 Proof. apply incl_b_incl. vm_compute. reflexivity. Qed.
 
 Lemma cloned_fields_exist_l :
   incl cloned_ptr_fields ast_ptr_fields /\ incl cloned_vec_fields ast_vec_fields /\
-  incl cloned_scalar_fields ast_scalar_fields.
+  incl cloned_indirect_fields ast_indirect_fields /\ incl cloned_scalar_fields ast_scalar_fields.
 Proof. repeat split; apply incl_b_incl; vm_compute; reflexivity. Qed.
 
 Lemma subst_visits_every_cloned_child_l : incl cloned_child_fields subst_child_fields.
 Proof. apply incl_b_incl. vm_compute. reflexivity. Qed.
 
-Lemma subst_strings_recorded_l : incl recorded_subst_strings subst_string_fields.
+Lemma inst_fields_complete_l : incl ast_child_fields inst_child_fields.
 Proof. apply incl_b_incl. vm_compute. reflexivity. Qed.
 
-Lemma subst_complete_refuted_l : ~ incl type_carrying_fields subst_string_fields.
+Lemma subst_strings_recorded_l :
+  incl recorded_subst_strings subst_string_fields /\ incl recorded_subst_strvecs subst_strvec_fields /\
+  subst_type_info_guarded = true.
+Proof. repeat split; try (apply incl_b_incl; vm_compute; reflexivity). Qed.
+
+Lemma subst_complete_refuted_l : ~ incl type_carrying_fields (subst_string_fields ++ subst_strvec_fields).
 Proof. intros H. apply incl_b_incl in H. vm_compute in H. discriminate. Qed.
 
 Lemma subst_unrewritten_recorded_l :
-  incl (missing type_carrying_fields subst_string_fields) recorded_unrewritten.
+  incl (missing type_carrying_fields (subst_string_fields ++ subst_strvec_fields)) recorded_unrewritten.
 Proof. apply incl_b_incl. vm_compute. reflexivity. Qed.
 
-(* with the table as it is, instantiate = monomorphise exactly on the trees that use only copied
-   children: inst_child_fields is all of cloned_child_fields *)
 Lemma inst_fields_are_cloned_l : inst_child_fields = cloned_child_fields.
 Proof. vm_compute. reflexivity. Qed.
+
+(* ------------------------------------------------------------------ complete clone / instantiate *)
+Lemma clone_id_all_l : forall n,
+  kids_within ast_child_fields n = true -> scalars_within node_scalar_fields n = true -> clone n = n.
+Proof. exact (clone_id_complete_l clone_complete_l node_scalars_copied_l). Qed.
+
+Lemma instantiate_is_mono_all_l : forall f targs r, instantiate f targs = Ok r ->
+  kids_within ast_child_fields f = true -> scalars_within node_scalar_fields f = true ->
+  r = clear_generic (mono (build_map (type_params_of f) targs) f).
+Proof. exact (instantiate_is_mono_complete_l inst_fields_complete_l node_scalars_copied_l). Qed.
 
 (* ------------------------------------------------------------------ witnesses *)
 Definition S (s : string) : str := s2l s.
@@ -71,7 +79,7 @@ Definition var (x : string) : node := Node 1 [("name"%string, S x)] [].
 Definition param (x ty : string) : node :=
   Node 32 [("pointer_base_type_name"%string, S ty); ("name"%string, S x); ("type_name"%string, S ty)] [].
 
-(*  T max<T>(T a, T b) { return a > b ? a : b; }        (DESIGN section 7 #19, docs example) *)
+(*  T max<T>(T a, T b) { return a > b ? a : b; }     (former finding C11-clone-third-segv, now in corpus/c11.json) *)
 Definition w_max : node :=
   Node 31 [("is_generic"%string, S "1"); ("name"%string, S "max"); ("return_type_name"%string, S "T");
            ("type_parameters"%string, S "T")]
@@ -86,77 +94,44 @@ Definition w_max : node :=
 
 Definition m_T_int : tmap := build_map [S "T"] [S "int"].
 
-Lemma clone_id_refuted_l : exists n, clone n <> n.
-Proof.
-  exists w_max. intros H. apply (f_equal child_fields_used) in H. vm_compute in H. discriminate.
-Qed.
+(* the instantiated max<int> keeps the else-operand of ?: and has int parameters *)
+Lemma max_keeps_third_l : forall r, instantiate w_max [S "int"] = Ok r ->
+  child_fields_used r = child_fields_used w_max.
+Proof. intros r E. vm_compute in E. inversion E. subst r. vm_compute. reflexivity. Qed.
 
-Lemma instantiate_is_mono_refuted_l : exists f targs r,
-  instantiate f targs = Ok r /\
-  r <> clear_generic (mono (build_map (type_params_of f) targs) (strip f)).
-Proof.
-  exists w_max, [S "int"].
-  destruct (instantiate w_max [S "int"]) as [r|e] eqn:E; [|vm_compute in E; discriminate].
-  exists r. split; [reflexivity|].
-  intros H. apply (f_equal child_fields_used) in H.
-  assert (Hr : child_fields_used r =
-               ["body"; "statements"; "left"; "left"; "left"; "right"; "right"; "parameters"; "parameters"]%string).
-  { vm_compute in E. inversion E. vm_compute. reflexivity. }
-  rewrite Hr in H. vm_compute in H. discriminate.
-Qed.
-
-(* the instantiated max<int> has lost the else-operand of ?: *)
-Lemma max_loses_third_l : forall r, instantiate w_max [S "int"] = Ok r ->
-  ~ In "third"%string (child_fields_used r) /\ In "third"%string (child_fields_used w_max).
-Proof.
-  intros r E. vm_compute in E. inversion E. subst r. split.
-  - vm_compute. intuition discriminate.
-  - vm_compute. tauto.
-Qed.
-
-(* spellings the parser produces for which the textual rewriting fails:
-     T* p          -> type_name "T*" is left alone                      (a parameter survives)
-     Pair<A, B>* q -> "Pair<int, string>"                                (the '*' is lost)
+(* spellings the parser produces for which the textual rewriting still fails:
+     T* p          -> type_name "T*" is left alone  (harmless: the base type name, which is what is read, is rewritten)
      T[3] a        -> type_name "T[3]" is left alone
-     g<T>(x)       -> the call's type_arguments ["T"] are not rewritten  (not a rewritten member) *)
+     Pair<A, B>* q -> "Pair<int, string>"            (the '*' is lost) *)
 Lemma subst_total_refuted_l :
   subst_name3 m_T_int (S "T*") = S "T*" /\
   subst_name3 m_T_int (S "T[3]") = S "T[3]" /\
-  subst_name3 (build_map [S "A"; S "B"] [S "int"; S "string"]) (S "Pair<A, B>*") = S "Pair<int, string>" /\
-  subst_node m_T_int (Node 46 [("name"%string, S "g"); ("type_arguments"%string, S "T")] []) =
-    Node 46 [("name"%string, S "g"); ("type_arguments"%string, S "T")] [].
+  subst_name3 (build_map [S "A"; S "B"] [S "int"; S "string"]) (S "Pair<A, B>*") = S "Pair<int, string>".
 Proof. repeat split; vm_compute; reflexivity. Qed.
 
-(* a local of a user struct type P inside ANY generic function: substitute_type_parameters
-   recomputes type_info from the (unchanged) name through parse_type_from_string, which answers
-   TYPE_INT (3) for a struct name; the parser had TYPE_STRUCT (12):   T f<T>(T a) { P p; ... } *)
-Lemma struct_local_type_info_clobbered_l :
-  sget "type_info" (scalars_of (subst_node m_T_int
-      (Node 28 [("type_info"%string, S "12"); ("name"%string, S "p"); ("type_name"%string, S "P")] []))) = S "3".
+(* g<T>(x) inside f<T>: the call's type_arguments are rewritten (former finding C11-nested-type-arguments) *)
+Lemma nested_type_arguments_rewritten_l :
+  subst_node (build_map [S "T"; S "U"] [S "long"; S "Box<int>"])
+     (Node 46 [("name"%string, S "g"); ("type_arguments"%string, s2l "T" ++ [c_nl] ++ s2l "Pair<U, T>")] []) =
+  Node 46 [("name"%string, S "g"); ("type_arguments"%string, s2l "long" ++ [c_nl] ++ s2l "Pair<Box<int>, long>")] [].
 Proof. vm_compute. reflexivity. Qed.
+
+(* a local of a user struct type keeps TYPE_STRUCT (12); a local of the type parameter bound to a struct keeps the
+   parser's type_info (-1) and is resolved through its rewritten type_name; bound to a builtin it gets that type
+   (former findings C11-subst-struct-local / C11-subst-struct-typearg-local) *)
+Lemma struct_local_type_info_kept_l :
+  sget "type_info" (scalars_of (subst_node m_T_int
+      (Node 28 [("type_info"%string, S "12"); ("name"%string, S "p"); ("type_name"%string, S "P")] []))) = S "12" /\
+  scalars_of (subst_node (build_map [S "T"] [S "P"])
+      (Node 28 [("type_info"%string, S "-1"); ("name"%string, S "r"); ("type_name"%string, S "T")] [])) =
+    [("type_info"%string, S "-1"); ("name"%string, S "r"); ("type_name"%string, S "P")] /\
+  scalars_of (subst_node (build_map [S "T"] [S "long"])
+      (Node 28 [("type_info"%string, S "-1"); ("name"%string, S "r"); ("type_name"%string, S "T")] [])) =
+    [("type_info"%string, S "4"); ("name"%string, S "r"); ("type_name"%string, S "long")].
+Proof. repeat split; vm_compute; reflexivity. Qed.
 
 (* without the hypotheses the key is not injective *)
 Lemma cache_key_injective_refuted_l :
   generate_cache_key (S "f") [S "a,b"] = generate_cache_key (S "f") [S "a"; S "b"] /\
   generate_cache_key (S "f<a>") [S "b"] = generate_cache_key (S "f") [S "a><b"].
 Proof. split; vm_compute; reflexivity. Qed.
-
-(* switching the cache back on as written (hit -> clone_ast_node(cached)) makes the second use of
-   f<long> differ from the first: pointer_base_type, recomputed by the substitution, is not among
-   the members clone_ast_node copies.      T f<T>(T a) { return a; }   f<long>(1); f<long>(1); *)
-Definition w_id : node :=
-  Node 31 [("is_generic"%string, S "1"); ("name"%string, S "f"); ("return_type_name"%string, S "T");
-           ("type_parameters"%string, S "T")]
-    [("body"%string, Node 58 [] [("statements"%string, Node 20 [] [("left"%string, var "a")])]);
-     ("parameters"%string, param "a" "T")].
-
-Lemma nth_use_cached_refuted_l : exists tbl h r1 r2,
-  nth_error h 0 = nth_error h 1 /\
-  run_cached tbl [] h = [r1; r2] /\ r1 <> r2.
-Proof.
-  exists (fun _ => w_id), [(S "f", [S "long"]); (S "f", [S "long"])].
-  destruct (run_cached (fun _ => w_id) [] [(S "f", [S "long"]); (S "f", [S "long"])]) as [|r1 [|r2 [|]]] eqn:E;
-    try (vm_compute in E; discriminate).
-  exists r1, r2. split; [reflexivity|]. split; [reflexivity|].
-  vm_compute in E. inversion E. subst r1 r2. intros H. inversion H.
-Qed.
